@@ -60,8 +60,18 @@ def run(stage_dir, target_dir, harness_filters, timeout_s, jobs, log, extra=None
     if extra:
         cmd += extra
     t0 = time.time()
+
+    def _limit():
+        # a runaway CBMC (24 GB was observed for a sort-heavy gate) must not take the machine down: cap the address
+        # space of cargo-kani and everything it starts; a harness killed by the cap is reported as "no result"
+        import resource
+        cap = int(os.environ.get("VERIF_MEM_GB", "24")) * (1 << 30)
+        try:
+            resource.setrlimit(resource.RLIMIT_AS, (cap, cap))
+        except Exception:
+            pass
     r = subprocess.run(cmd, cwd=stage_dir, env=env, stdout=subprocess.PIPE,
-                       stderr=subprocess.STDOUT, text=True)
+                       stderr=subprocess.STDOUT, text=True, preexec_fn=_limit)
     wall = time.time() - t0
     js = None
     if os.path.exists(out_json):
@@ -213,6 +223,11 @@ def classify(js, stdout, units):
                     # the harness reached the operating system (getrandom for RandomState, clocks, files): CBMC has no
                     # model of it -> undecided, never a property violation
                     entry["unsupported"].append(f"environment call not modelled: {desc[:80]} @ {where}")
+                    continue
+                if status == "Failure" and "__verif_" in str(c.get("function", "")):
+                    # an overflow / panic inside the HARNESS's own arithmetic is a defect of the harness, not of the code
+                    # under contract: undecided (exit 2), never reported as a violation of the property
+                    entry["unsupported"].append(f"failed check inside harness code (harness defect): {desc[:80]} @ {where}")
                     continue
                 if status == "Failure":
                     if cat == "unsupported_construct" or "not currently supported" in desc or cat == "unwind" or "unwinding assertion" in desc:
